@@ -197,6 +197,24 @@ def gen_spec(rng: random.Random, S=None, A=None, E=None, kind="random", R=None, 
     return spec
 
 
+def flat_initial_policy(spec, rng, fee):
+    """Give the problem an initial policy (one action everywhere) whose expected immediate reward is the same constant `fee` in every state
+    (fee = 0 for the max_diff test) and zero initial values: its first evaluation sweep passes the convergence test at once and hands back the
+    initial values unchanged, although the policy is not greedy for them (the other actions keep their generated rewards)."""
+    S, A = len(spec["nxt"]), len(spec["nxt"][0])
+    a0 = rng.randrange(A)
+    for s in range(S):
+        spec["rew"][s][a0] = [float(fee)] * len(spec["rew"][s][a0])
+        for a in range(A):
+            if a != a0 and max(spec["rew"][s][a]) <= fee:      # some other action is strictly better now in this state
+                spec["rew"][s][a] = [float(fee) + 1.0 + (s % 3)] * len(spec["rew"][s][a])
+    spec["initpol"] = [a0] * S
+    spec["init"] = None
+    spec["rew_dtype"] = "float64"
+    spec["_tags"] = [t for t in spec["_tags"] if t not in ("noinitpol", "init", "noinit", "initpol")] + ["initpol", "noinit", "flat-initial-policy"]
+    return spec
+
+
 def rand_values(rng, n, R=8, denom=4):
     return [Fraction(rng.randint(-R * denom, R * denom), denom) for _ in range(n)]
 
